@@ -17,6 +17,18 @@ CHECKS = {
              "in known_findings.json with their recorded extent in findings_extent/C05.json.",
         technique="TLA+ recogniser spec model-checked by TLC; TLC-exported automaton replayed exhaustively into the decoder",
         engine="JsonText", design="8/C05"),
+    "C16": dict(
+        level="model_checking",
+        text="IntCodec.tla states integer literal semantics on digit sequences (bounds derived by doubling, length-then-lexicographic "
+             "comparison, well-formedness of JSON integers); TLC checks monotonicity of Fits, print/parse round trip and sharpness of "
+             "every bound, and emits one conformance case per explored (kind, literal): every literal within 130 (quick) / 1100 "
+             "(thorough) of each bound of the 8 kinds, interior powers of two and ten, 1..25-digit literals and ill-formed forms. Each "
+             "case is replayed in 7 positions (plain, pointer, slice element, map key, ,string member, Decoder stream, struct field) "
+             "and for int/uint/uintptr; the stored value must equal the specification's canonical text, or an error must be returned. "
+             "Encoding is swept against strconv (outside the model).",
+        note="trusted: TLC, IntCodec.tla (math/big re-derives every verdict; disagreement = exit 2), strconv for the encoder sweep.",
+        technique="TLA+ digit-sequence spec model-checked by TLC; TLC-emitted (kind, literal, verdict) cases replayed into the decoder; strconv sweep for the printer",
+        engine="IntCodec", design="8/C16"),
     "C18": dict(
         level="model_checking",
         text="JsonTransform.tla defines Compact and Indent as transducers on top of the JsonText recogniser; TLC checks on every "
@@ -101,8 +113,10 @@ def main():
 
 NA = {}
 HOOK_COMMITS = ["cb16685"]
-FIX_COMMITS = ["3ba2124", "35e540e", "5d9c0a9", "182cdbb"]
+FIX_COMMITS = ["3ba2124", "35e540e", "5d9c0a9", "182cdbb", "c177d40", "4cc9b5c"]
 ENGINES = [
+    dict(name="IntCodec", path="specs/IntCodec.tla", serves_properties=["C16"],
+         kind_free_text="TLA+ digit-sequence arithmetic and integer literal semantics; TLC laws + conformance case emission"),
     dict(name="StreamDecoder", path="specs/StreamDecoder.tla", serves_properties=["C09"],
          kind_free_text="TLA+ model of the stream window (StreamDecoder.tla + StreamIdx.tla) and trace specification StreamTrace.tla"),
     dict(name="JsonTransform", path="specs/JsonTransform.tla", serves_properties=["C18"],
